@@ -10,7 +10,7 @@ ASSUMPTIONS = [
     "regroupings: every forest of tock-0, non-always DoDoers over the same leaf sequence, nesting depth <= 3, <= 3 children per DoDoer",
 ]
 
-MODE = sched.Mode("C04", tocks=True, rets=True, raises=False, enterdone=True, xtocks=True, horizon=4, limits=(None, 2.0, 2.5, 1.0))
+MODE = sched.Mode("C04", prerun=True, tocks=True, rets=True, raises=False, enterdone=True, xtocks=True, horizon=4, limits=(None, 2.0, 2.5, 1.0))
 
 
 def BOUND(tier):
@@ -70,7 +70,7 @@ def harness(job, ch):
     base = view(flat)
     viol = []
     nre = 0
-    cfg = (flat.T, flat.start, flat.limit)
+    cfg = (flat.T, flat.start, flat.limit, flat.via)
     table_by_idx = [flat.decisions.get(n, []) for n in names]
     kinds_by_idx = [flat.kindsel[n] for n in names]
     for shape in regroupings(len(names)):
